@@ -445,6 +445,6 @@ pub fn run(ctx: &mut Ctx) {
     let t = ctx.tier;
     let (a, r) = t.pick((3, 3), (4, 3));
     ctx.run_enumerated::<Reloader>(enumerate(a, r), true);
-    ctx.run_part::<Reloader>(t.pick(20_000, 500_000));
+    ctx.run_part::<Reloader>(t.pick(20_000, 20_000_000));
     ctx.run_part::<ThreadStress>(t.pick(40, 1_000));
 }
